@@ -283,6 +283,11 @@ def check_unit(u, scratch, args):
         expected = [it["fn_name"] + "__canary" for it in json.load(open(cmeta))["items"]
                     if it.get("is_fn") and it.get("contracted")]
         expected.append("prelude_consistency__canary")
+        # lemma twins (spec files): every proof fn checked in the main run has a twin with `ensures false`
+        for k, v in bd.items():
+            short = k.split("::")[-1]
+            if v.get("mode") == "proof" and any(t.endswith("::" + short + "__canary") for t in twins):
+                expected.append(short + "__canary")
         vac = []
         for e in expected:
             hit = [k for k in twins if k.endswith("::" + e)]
